@@ -123,7 +123,7 @@ def gen_pool(rng, tier, opts):
     tomos = []
     qst_para = rng.random() < 0.5
     n_qst = 0
-    for ttype in ["qst", "qst", "povmt"] + (["qpt"] if rng.random() < 0.4 else []):
+    for ttype in ["qst", "qst", "povmt"] + (["qpt"] if rng.random() < 0.4 else []) + (["qmpt"] if rng.random() < 0.5 else []):
         testers = povm_ids if ttype == "qst" else (state_ids[:4] if ttype == "povmt" else state_ids[:4] + povm_ids)
         para = rng.random() < 0.5
         if ttype == "qst":
@@ -190,6 +190,7 @@ class Run:
         self.known = known_signatures("C13")
         self.generating = False
         self._shell = None  # the previous temporary tomography object of the live world (see tomo_for)
+        self.last_result_id = None
 
     def bump(self, table, key, n=1):
         d = self.stats[table]
@@ -292,6 +293,19 @@ class Run:
         else:
             get = lambda i: self.build_entry(i, cache, False)
         op = st["op"]
+        if op == "derive":
+            src = get(st["on"])
+            how = st["how"]
+            if how == "generate_from_var":
+                return src.generate_from_var(src.to_var())
+            if how == "generate_from_var_flags":
+                return src.generate_from_var(src.to_var(), is_physicality_required=False, on_para_eq_constraint=st.get("para", False))
+            if how == "tomo_convert":
+                qt = get(st["tomo"])
+                return qt.convert_var_to_qoperation(src.to_var())
+            if how == "copy":
+                return src.copy()
+            raise ValueError(how)
         if op == "chain":
             # sub-steps run back to back on the live world's shared objects (temporary objects of one sub-step are dropped
             # before the next one starts, so a new temporary may live at the same address); in the fresh world every
@@ -388,6 +402,13 @@ class Run:
                 return qt.calc_prob_dists(get(st["obj"]))
             if name == "calc_prob_dist":
                 return qt.calc_prob_dist(get(st["obj"]), st["i"])
+            if name in ("generate_empi_dists_sequence", "generate_empi_dists", "generate_empi_dist"):
+                obj = get(st["obj"])
+                if name == "generate_empi_dists_sequence":
+                    return qt.generate_empi_dists_sequence(obj, list(st["num_sums"]), st["seed"])
+                if name == "generate_empi_dists":
+                    return qt.generate_empi_dists(obj, st["num_sums"][0], st["seed"])
+                return qt.generate_empi_dist(st["i"], obj, st["num_sums"][0], st["seed"])
             if name == "convert_var_to_qoperation":
                 var = np.array(st["var"])
                 out = qt.convert_var_to_qoperation(var)
@@ -509,7 +530,7 @@ class Run:
     # --- oracles around one step ---------------------------------------------------------------------
     def step(self, idx, st):
         op = st["op"]
-        sig = {"op": op, "name": st.get("name") or st.get("table") or st.get("action"), "kind": self.pool[st["on"]]["kind"] if "on" in st else None}
+        sig = {"op": op, "name": st.get("name") or st.get("table") or st.get("action") or st.get("how"), "kind": self.pool[st["on"]]["kind"] if isinstance(st.get("on"), int) and st["on"] < len(self.pool) else None}
         self.kinds.append([op, sig["name"], sig["kind"]])
         if op == "flip_begin":
             self.atol = st["atol"]
@@ -626,17 +647,20 @@ class Run:
             if not (out_live["orig_unchanged"] and out_live["sibling_unchanged"] and out_live["copy_type_ok"] and out_live["copy_equal_before_edit"]):
                 raise Violation("O3_copy_independence", f"step {idx}: editing a copy changed the original or a sibling copy, or the copy differs from the original: {out_live}", {"step": idx, "st": to_jsonable(st), "result": out_live}, sig)
         # ---- results that are quara objects join the pool (with the value the fresh world produced)
-        if isinstance(out_ref, QOperation) and type(out_ref).__name__.lower() in QOP_KINDS and op in ("m", "compose"):
-            src = st["on"] if op == "m" else st["ids"][0]
+        if isinstance(out_ref, QOperation) and type(out_ref).__name__.lower() in QOP_KINDS and op in ("m", "compose", "derive"):
+            src = st["on"] if op in ("m", "derive") else st["ids"][0]
             csys_id = self.pool[src]["csys"]
             if out_live.composite_system is self.live.get(csys_id):
+                self.last_result_id = None
                 if self.generating:
                     rid = self.add_to_pool(W.qop_recipe(out_ref, csys_id, self.atol), out_live)
                     if rid is not None:
                         st["result_id"] = rid
+                        self.last_result_id = rid
                 elif "result_id" in st and 0 <= st["result_id"] < len(self.pool) and self.pool[st["result_id"]]["kind"] == type(out_ref).__name__.lower():
                     # replay: the pool entry exists already; the live object is the actual result of this step
                     self.live[st["result_id"]] = out_live
+                    self.last_result_id = st["result_id"]
         if self.fault_pending:
             self.nontrivial = True
 
@@ -644,7 +668,12 @@ class Run:
         """an operation that is documented to change its operand in place (set_zero): the operand is exempt from O1,
         its new value must equal what the same mutation gives in a fresh world, and its recipe follows the new value."""
         i = st["on"]
-        if not (0 <= i < len(self.pool)) or self.pool[i]["kind"] not in QOP_KINDS:
+        if i == "__result_of_previous__":
+            i = self.last_result_id
+            if i is None:
+                return
+            st["on"] = i  # the record keeps the resolved id
+        if not isinstance(i, int) or not (0 <= i < len(self.pool)) or self.pool[i]["kind"] not in QOP_KINDS:
             return
         obj = self.build_entry(i, None, True)
         before = self.snapshot_all()
@@ -809,7 +838,7 @@ class Generator:
         self.w = {
             "m": 6, "with_var": rngc.choice([1, 3]), "modfunc": rngc.choice([1, 3]), "compose": 2, "tensor": rngc.choice([0.3, 1]), "cache": 0 if self.fault_free else rngc.choice([2, 5, 8]),
             "flip": 0 if self.fault_free else rngc.choice([0, 0.5, 1.5]), "estimate": rngc.choice([0.5, 2, 4]), "loss_eval": rngc.choice([0.5, 2]), "basis_write": 0.4, "copy_edit": 0.7, "rerun": 1.0, "dataset": 0.8,
-            "mdist": 0.8, "tomo_m": 1.5, "basis_q": 0.8, "csys_q": 0.6, "chain": 0.7,
+            "mdist": 0.8, "tomo_m": 1.5, "basis_q": 0.8, "csys_q": 0.6, "chain": 0.7, "derive": 1.2,
         }
         self.focus = "general" if self.fault_free else rngc.choice(["general", "general", "cache", "cache", "estimation", "estimation", "projection", "tolerance"])
         if opts.get("focus"):
@@ -853,6 +882,29 @@ class Generator:
         sts = st if isinstance(st, list) else [st]
         self.history.extend(sts)
         return sts
+
+    def g_derive(self):
+        """an object made from another one's own variables (the arrays may be handed through), often zeroed right afterwards"""
+        rng = self.rng
+        cands = [j for j, r in enumerate(self.pool) if r["kind"] in QOP_KINDS and r["csys"] == 0]
+        i = rng.choice(cands)
+        kind = self.pool[i]["kind"]
+        how = rng.choice(["generate_from_var", "generate_from_var_flags", "copy", "tomo_convert"])
+        st = {"op": "derive", "on": i, "how": how, "para": rng.random() < 0.5}
+        if how == "tomo_convert":
+            want = {"state": "qst", "povm": "povmt", "gate": "qpt", "mprocess": "qmpt"}[kind]
+            ts = [t for t in self.ids("tomo") if self.pool[t]["type"] == want and (kind not in ("povm", "mprocess") or len(self.pool[i].get("vecs") or self.pool[i].get("hss")) == 2)]
+            # the variables must have the tomography's parametrisation
+            ts = [t for t in ts if bool(self.pool[t]["para"]) == bool(self.pool[i]["flags"].get("on_para_eq_constraint"))]
+            if not ts:
+                st["how"] = "generate_from_var"
+            else:
+                st["tomo"] = rng.choice(ts)
+        out = [st]
+        if not self.fault_free and rng.random() < 0.6:
+            out.append({"op": "mutate", "on": "__result_of_previous__", "name": "set_zero"})
+            out.append({"op": "m", "on": i, "name": rng.choice(["to_var", "to_stacked_vector", "is_physical"])})
+        return out
 
     def g_mutate(self):
         rng = self.rng
@@ -996,7 +1048,7 @@ class Generator:
 
     def g_dataset(self):
         rng = self.rng
-        tomos = self.ids("tomo")
+        tomos = [t for t in self.ids("tomo") if self.pool[t]["type"] in ("qst", "povmt", "qpt")]
         if not tomos:
             return None
         t = rng.choice(tomos)
@@ -1084,7 +1136,7 @@ class Generator:
 
     def g_estimate(self):
         rng = self.rng
-        tomos = [t for t in self.ids("tomo") if self.pool[t]["type"] != "qpt" or rng.random() < 0.3]
+        tomos = [t for t in self.ids("tomo") if self.pool[t]["type"] in ("qst", "povmt") or (self.pool[t]["type"] == "qpt" and rng.random() < 0.3)]
         if not tomos:
             return None
         t = rng.choice(tomos)
@@ -1112,7 +1164,7 @@ class Generator:
         loss = rng.choice(self.ids("loss"))
         algo = rng.choice(self.ids("algo"))
         ests = [e for e in self.ids("estimator") if self.pool[e]["cls"] == "lossmin"]
-        tomos = [t for t in self.ids("tomo") if self.pool[t]["type"] != "qpt"]
+        tomos = [t for t in self.ids("tomo") if self.pool[t]["type"] in ("qst", "povmt")]
         if not ests or not tomos:
             return None
         qsts = [t for t in tomos if self.pool[t]["type"] == "qst"]
@@ -1133,7 +1185,7 @@ class Generator:
 
     def g_loss_eval(self):
         rng = self.rng
-        tomos = [t for t in self.ids("tomo") if self.pool[t]["type"] != "qpt"]
+        tomos = [t for t in self.ids("tomo") if self.pool[t]["type"] in ("qst", "povmt")]
         if not tomos:
             return None
         t = rng.choice(tomos)
@@ -1197,19 +1249,24 @@ class Generator:
         t = rng.choice(tomos)
         rec = self.pool[t]
         name = rng.choice(["calc_matA", "calc_vecB", "is_fullrank_matA", "num_variables", "generate_empty_estimation_obj_with_setting_info", "calc_prob_dists", "calc_prob_dists", "calc_prob_dist",
-                           "convert_var_to_qoperation"])
+                           "convert_var_to_qoperation", "generate_empi_dists_sequence", "generate_empi_dists", "generate_empi_dist"])
         st = {"op": "tomo_m", "tomo": t, "name": name}
         kind = {"qst": "state", "povmt": "povm", "qpt": "gate", "qmpt": "mprocess"}[rec["type"]]
-        if name in ("calc_prob_dists", "calc_prob_dist"):
-            cands = [i for i in self.ids(kind, 0) if kind != "povm" or len(self.pool[i]["vecs"]) == 2]
+        if name in ("calc_prob_dists", "calc_prob_dist", "generate_empi_dists_sequence", "generate_empi_dists", "generate_empi_dist"):
+            # data generation needs a physical unknown (probabilities); catalogue objects are
+            phys = name.startswith("generate")
+            cands = [i for i in self.ids(kind, 0) if (kind != "povm" or len(self.pool[i]["vecs"]) == 2) and (kind != "mprocess" or len(self.pool[i]["hss"]) == 2) and (not phys or self.pool[i].get("name"))]
             if not cands:
                 return None
             st["obj"] = rng.choice(cands)
-            if name == "calc_prob_dist":
+            if name.startswith("generate"):
+                st["num_sums"] = sorted(set(rng.choice([1, 10, 100]) for _ in range(2)))
+                st["seed"] = rng.randrange(100)
+            if name in ("calc_prob_dist", "generate_empi_dist"):
                 n_sched = {"qst": len(rec["testers"]), "povmt": len(rec["testers"]), "qpt": 12, "qmpt": 12}[rec["type"]]
                 st["i"] = rng.randrange(n_sched)
         if name == "convert_var_to_qoperation":
-            nvar = {"qst": 3 if rec["para"] else 4, "povmt": 4 if rec["para"] else 8, "qpt": 12 if rec["para"] else 16}.get(rec["type"])
+            nvar = {"qst": 3 if rec["para"] else 4, "povmt": 4 if rec["para"] else 8, "qpt": 12 if rec["para"] else 16, "qmpt": 28 if rec["para"] else 32}.get(rec["type"])
             if nvar is None:
                 return None
             st["var"] = ops.rand_var(rng, nvar, 0.3)
@@ -1224,7 +1281,7 @@ class Generator:
         return {"op": "copy_edit", "on": rng.choice([j for j, r in enumerate(self.pool) if r["kind"] in QOP_KINDS])}
 
     def g_rerun(self):
-        cands = [s for s in self.history if s["op"] in ("m", "with_var", "modfunc", "compose", "estimate", "loss_eval", "tomo_m", "mdist", "basis_q", "esys_q", "csys_q")]
+        cands = [s for s in self.history if s["op"] in ("m", "with_var", "modfunc", "compose", "estimate", "loss_eval", "tomo_m", "mdist", "basis_q", "esys_q", "csys_q", "derive")]
         if not cands:
             return None
         return copy.deepcopy(self.rng.choice(cands))
